@@ -15,6 +15,8 @@ Keys of props.d/Cxx.json:
   harness_timeout  (optional) {"quick": seconds, "thorough": seconds}
   search_cap       (optional) max cases of the failing-input search after a broken tie
   coqchk           (optional, bool, default true) run coqchk in the thorough tier
+  thorough_props_mods (optional) Props modules built and audited only in the thorough tier
+  thorough_only_mods  (optional) other modules that setup.sh must not build (dependencies of the above)
 """
 import glob, json, os
 
